@@ -227,15 +227,24 @@ type sched struct {
 	mu       sync.Mutex
 	freeLog  []PubLine
 	last     time.Time
+	t0       time.Time
+	trail    []string
 }
 
 func newSched() *sched {
-	return &sched{arrivals: make(chan *arrival), freeCh: make(chan struct{}), last: time.Now()}
+	return &sched{arrivals: make(chan *arrival), freeCh: make(chan struct{}), last: time.Now(), t0: time.Now()}
 }
 
-func (s *sched) touch() {
+func (s *sched) touch() { s.note("gate") }
+
+// note records activity of the publisher (gate, database statement, node call).
+func (s *sched) note(what string) {
 	s.mu.Lock()
 	s.last = time.Now()
+	s.trail = append(s.trail, fmt.Sprintf("%s@%dms", what, time.Since(s.t0).Milliseconds()))
+	if len(s.trail) > 16 {
+		s.trail = s.trail[len(s.trail)-16:]
+	}
 	s.mu.Unlock()
 }
 
@@ -366,16 +375,16 @@ func newPubWorld(p PubPlan) (*pubWorld, error) {
 	// the gates: database statement of publishIfResponsible, and the two chain points
 	w.srv.SetFault(func(ev fakepg.Event) fakepg.Fault {
 		if s := pw.sch.Load(); s != nil {
-			s.touch()
+			s.note(ev.Kind + ":" + ev.Stmt)
 			if ev.Kind == fakepg.KindExecute && ev.Stmt == "GetKeyperSetByKeyperConfigIndex" {
 				s.arrive("takes", 0, true)
 			}
 		}
 		return fakepg.None
 	})
-	pw.chain.activity = func() {
+	pw.chain.activity = func(what string) {
 		if s := pw.sch.Load(); s != nil {
-			s.touch()
+			s.note(what)
 		}
 	}
 	pw.chain.gate = func(kind string, to common.Address, key []byte, kidx uint64, senderOK bool) error {
@@ -420,7 +429,24 @@ const (
 
 // run replays one history as a gated schedule and then lets the publisher run freely until it rests.
 func (pw *pubWorld) run(hist []PubOp) []PubLine {
-	lines := []PubLine{{K: "new", Ret: true, Wf: true}}
+	lines, _ := pw.runChecked(hist)
+	return lines
+}
+
+// runChecked also tells whether the repetition ended by a time-out again.
+func (pw *pubWorld) runChecked(hist []PubOp) ([]PubLine, bool) {
+	lines, timedOut := pw.runScaled(hist, 1)
+	if timedOut {
+		// a run that was ended by a time-out instead of by the publisher's own progress is repeated once
+		// with five times longer time-outs, and the repetition is what gets validated: a publisher that
+		// really loses or never takes a key does so again, a stall of the machine does not
+		lines, timedOut = pw.runScaled(hist, 5)
+	}
+	return lines, timedOut
+}
+
+func (pw *pubWorld) runScaled(hist []PubOp, scale time.Duration) (lines []PubLine, timedOut bool) {
+	lines = []PubLine{{K: "new", Ret: true, Wf: true}}
 	pw.w.Reset()
 	pw.chain.Reset()
 	s := newSched()
@@ -428,7 +454,7 @@ func (pw *pubWorld) run(hist []PubOp) []PubLine {
 	defer pw.sch.Store(nil)
 	pub, err := eonkeypublisher.NewEonKeyPublisher(pw.w.pool, pw.chain.client, pw.chain.mgr, pw.w.cfg.Ethereum.PrivateKey.Key)
 	if err != nil {
-		return append(lines, PubLine{K: "end", Panic: "NewEonKeyPublisher: " + err.Error()})
+		return append(lines, PubLine{K: "end", Panic: "NewEonKeyPublisher: " + err.Error()}), false
 	}
 	ctx, cancel := context.WithCancel(context.Background())
 	group, deferFn := service.RunBackground(ctx, pub)
@@ -482,7 +508,11 @@ func (pw *pubWorld) run(hist []PubOp) []PubLine {
 					gmu.Unlock()
 				}
 				pw.w.rec.mu.Unlock()
-				err := pw.w.handlers["Callback"].QueryAndHandleNewEonPubKeys(ctx)
+				h, herr := pw.w.handler(callbackMode, callbackOpts)
+				if herr != nil || h == nil {
+					panic(fmt.Sprint("handler: ", herr))
+				}
+				err := h.QueryAndHandleNewEonPubKeys(ctx)
 				pw.w.rec.mu.Lock()
 				pw.w.rec.forward = nil
 				pw.w.rec.mu.Unlock()
@@ -508,7 +538,8 @@ func (pw *pubWorld) run(hist []PubOp) []PubLine {
 				lines = append(lines, PubLine{K: "publish", Key: 0, Ret: false, Panic: p})
 				ok = false
 			}
-		case <-time.After(pubStepWait):
+		case <-time.After(scale * pubStepWait):
+			timedOut = true
 			gmu.Lock()
 			lines = append(lines, got...)
 			n := len(got)
@@ -550,10 +581,10 @@ func (pw *pubWorld) run(hist []PubOp) []PubLine {
 			}
 			onSchedule = publish(ids)
 		case "takes", "astart", "aend":
-			wait := pubStepWait
+			wait := scale * pubStepWait
 			if op.K == "astart" {
 				if retryPending {
-					wait = pubRetryWait
+					wait = pubRetryWait + scale*pubStepWait
 				}
 				if pending != nil && (pending.gate == "takes" || pending.gate == "astart") {
 					release("ok")
@@ -568,6 +599,12 @@ func (pw *pubWorld) run(hist []PubOp) []PubLine {
 			a := s.await(wait)
 			if a == nil { // the publisher does not come: stop following the schedule
 				onSchedule = false
+				timedOut = true
+				if os.Getenv("VERIF_C20_DEBUG") != "" {
+					s.mu.Lock()
+					fmt.Fprintf(os.Stderr, "off schedule at op %d (%s) after %dms; activity: %v\n", i, op.K, time.Since(s.t0).Milliseconds(), s.trail)
+					s.mu.Unlock()
+				}
 				break
 			}
 			pending = a
@@ -594,11 +631,11 @@ func (pw *pubWorld) run(hist []PubOp) []PubLine {
 	tSched = time.Now()
 	lines = append(lines, PubLine{K: "free", Ret: true, Wf: true})
 	s.setFree()
-	idle := pubIdle
+	idle := scale * pubIdle
 	if retryPending {
-		idle = pubRetryWait
+		idle = pubRetryWait + scale*pubIdle
 	}
-	deadline := time.Now().Add(pubRetryWait + 5*time.Second)
+	deadline := time.Now().Add(pubRetryWait + scale*5*time.Second)
 	for time.Now().Before(deadline) {
 		time.Sleep(5 * time.Millisecond)
 		s.mu.Lock()
@@ -627,7 +664,11 @@ func (pw *pubWorld) run(hist []PubOp) []PubLine {
 		since := time.Since(last)
 		// rest = no activity at the gates, the database or the node for a while; the wait is cut short
 		// when every handed-over key has been taken and every due attempt has ended
-		if since > idle || (ends >= expected && takes >= handed && since > 40*time.Millisecond) {
+		if ends >= expected && takes >= handed && since > 40*time.Millisecond {
+			break
+		}
+		if since > idle {
+			timedOut = true
 			break
 		}
 	}
@@ -636,7 +677,7 @@ func (pw *pubWorld) run(hist []PubOp) []PubLine {
 	s.mu.Unlock()
 	lines = append(lines, PubLine{K: "end", Ret: true, Wf: true})
 	tDrain = time.Now()
-	return lines
+	return lines, timedOut
 }
 
 func encodePubLines(lines []PubLine) []byte {
@@ -693,7 +734,12 @@ type PubOutcome struct {
 	ReplayS   float64
 	ValidateS float64
 	Pins      []string
+	Skipped   int // schedules not replayed because too many runs had already ended by a time-out twice
 }
+
+// after that many runs of a plan ended by a time-out even when repeated, the remaining schedules
+// are not replayed: the plan is a VIOLATION (or INCONCLUSIVE) already
+const pubMaxTimeouts = 12
 
 func inFlightHandovers(lines []PubLine) int {
 	best, cur, busy := 0, 0, false
@@ -730,6 +776,7 @@ func ReplayAndValidatePub(c *core.Ctx, g *PubGen) (*PubOutcome, error) {
 	t0 := time.Now()
 	var mu sync.Mutex
 	next := 0
+	timeouts := 0
 	var firstErr error
 	var wg sync.WaitGroup
 	for i := 0; i < workers; i++ {
@@ -754,12 +801,22 @@ func ReplayAndValidatePub(c *core.Ctx, g *PubGen) (*PubOutcome, error) {
 			for {
 				mu.Lock()
 				k := next
-				next++
+				if timeouts >= pubMaxTimeouts {
+					k = len(hs)
+				} else {
+					next++
+				}
 				mu.Unlock()
 				if k >= len(hs) {
 					return
 				}
-				runs[k] = pw.run(hs[k])
+				var again bool
+				runs[k], again = pw.runChecked(hs[k])
+				if again {
+					mu.Lock()
+					timeouts++
+					mu.Unlock()
+				}
 			}
 		}()
 	}
@@ -768,6 +825,17 @@ func ReplayAndValidatePub(c *core.Ctx, g *PubGen) (*PubOutcome, error) {
 		return nil, firstErr
 	}
 	out.ReplayS = time.Since(t0).Seconds()
+	// drop the schedules that were not replayed
+	var hs2 [][]PubOp
+	var runs2 [][]PubLine
+	for i := range runs {
+		if runs[i] != nil {
+			hs2 = append(hs2, hs[i])
+			runs2 = append(runs2, runs[i])
+		}
+	}
+	out.Skipped = len(hs) - len(hs2)
+	hs, runs = hs2, runs2
 	out.Runs = len(runs)
 	var all []PubLine
 	start := make([]int, len(runs))
